@@ -45,6 +45,22 @@ def _subterms(t):
             yield from _subterms(x)
 
 
+class Stub:
+    """A stand-in object for evaluation: any method call on it returns a record of the call."""
+
+    def __init__(self, tag):
+        self.tag = tag
+
+    def __repr__(self):
+        return f"<{self.tag}>"
+
+    def __eq__(self, other):
+        return isinstance(other, Stub) and other.tag == self.tag
+
+    def __hash__(self):
+        return hash(("Stub", self.tag))
+
+
 class Unknown(Exception):
     pass
 
@@ -134,6 +150,25 @@ def teval(t: Term, env: dict):
         return ev(a[0]).to_bytes(*[ev(x) for x in a[1:]])
     if op == "meth:ljust":
         return ev(a[0]).ljust(*[ev(x) for x in a[1:]])
+    if op.startswith("meth:") and a and not (isinstance(a[0], Const)):
+        try:
+            r0 = ev(a[0])
+        except Unknown:
+            r0 = None
+        if isinstance(r0, Stub):
+            return (op[5:], r0.tag) + tuple(ev(x) for x in a[1:])
+        if op == "meth:pop" and isinstance(r0, list) and len(a) <= 2:
+            try:
+                return r0[ev(a[1])] if len(a) == 2 else r0[-1]
+            except IndexError as e:
+                raise Unknown(f"pop: {e}")
+        if op == "meth:pop" and isinstance(r0, dict) and len(a) in (2, 3):
+            k_ = ev(a[1])
+            if k_ in r0:
+                return r0[k_]
+            if len(a) == 3:
+                return ev(a[2])
+            raise Unknown("pop of a missing key")
     if op == "meth:get":
         return ev(a[0]).get(*[ev(x) for x in a[1:]])
     if op.startswith("meth:") and op[5:] in ("startswith", "endswith", "lower", "upper", "strip", "replace", "split", "hex",
@@ -271,7 +306,7 @@ def teval(t: Term, env: dict):
         if name.v not in states:
             raise Unknown("loop-carried value without its initial value")
         live = iter_name is not None and iter_name in states and iter_name in carried and inits[iter_name][0].args[2] == it
-        fixed = None if live else list(ev(it))
+        fixed = None if live else list(_iterate(it, env))
         el = App("elem", (it,))
         i = 0
         while True:
@@ -280,7 +315,7 @@ def teval(t: Term, env: dict):
                 break
             item = seq[i]
             i += 1
-            env2 = {**env, el: item}
+            env2 = {**env, el: item} if live else dict(item)
             for n_, lvs in inits.items():
                 for lv in lvs:
                     env2[lv] = states[n_]
